@@ -912,6 +912,19 @@ type sHook struct {
 	at   []int64
 }
 
+// permOf returns a random permutation of 0..n-1.
+func permOf(r *lib.RNG, n int) []int {
+	p := make([]int, n)
+	for i := range p {
+		p[i] = i
+	}
+	for i := n - 1; i > 0; i-- {
+		j := r.Intn(i + 1)
+		p[i], p[j] = p[j], p[i]
+	}
+	return p
+}
+
 func stress(c *lib.Ctx, r *lib.RNG) []lib.OracleFail {
 	var fails []lib.OracleFail
 	add := func(class, what, replay string) {
@@ -1010,6 +1023,88 @@ func stress(c *lib.Ctx, r *lib.RNG) []lib.OracleFail {
 		ng := rr.Range(2, 4)
 		var wg sync.WaitGroup
 		start := make(chan struct{})
+		// children forked after the tree was built (in the Local phase below and DURING the concurrent phase)
+		type lateKid struct {
+			parent int
+			proc   *process.Process
+		}
+		var lateMu sync.Mutex
+		var lateKids []lateKid
+		// process-local stores as participants: a `process.Local` registers its clean-up (Delete of the
+		// process's entry) as an exit hook of the process when a value is first stored – from this property's
+		// point of view it is one more caller of AddExitHook, and whatever it does with ITS hook must leave
+		// everybody else's hooks and the forked children alone. Half of the rounds have 1–3 Locals; in the
+		// set-up phase (order known) they store for some processes, other hooks and forks are registered in
+		// between and afterwards, then some of them give their entry up again (Delete, or Close of the whole
+		// Local) – the one that stored earlier first, more often than not. (Seeded change c04l: a Local that
+		// removes "its" slot of the process's hook list by index.)
+		var locals []*process.Local[int]
+		if rr.Chance(1, 2) {
+			c.Hit("stress-round-with-locals")
+			for i, n := 0, rr.Range(1, 3); i < n; i++ {
+				locals = append(locals, process.NewLocal[int]())
+			}
+			storeL := func(g *lib.RNG, li, p int) string {
+				if g.Bool() {
+					locals[li].Store(procs[p], 10*li+p)
+					return fmt.Sprintf("local%d.Store(p%d)", li, p)
+				}
+				_, _ = locals[li].LoadOrStore(procs[p], func() (int, error) { return 10*li + p, nil })
+				return fmt.Sprintf("local%d.LoadOrStore(p%d)", li, p)
+			}
+			other := func(p int) {
+				if rr.Chance(1, 3) {
+					k := procs[p].Fork()
+					lateKids = append(lateKids, lateKid{p, k})
+					trace = append(trace, fmt.Sprintf("p%d.Fork() (child kept for the audit)", p))
+					return
+				}
+				h := pick(rr, p)
+				ord := ordc[[2]int{p, -1}]
+				ordc[[2]int{p, -1}]++
+				trace = append(trace, fmt.Sprintf("p%d.AddExitHook(hook#%d)", p, h.id))
+				if !procs[p].AddExitHook(h.f) {
+					note(fmt.Sprintf("registration refused: AddExitHook(p%d, hook#%d) returned false although hook#%d was not registered on the running p%d", p, h.id, h.id, p))
+				}
+				h.regs = append(h.regs, sReg{p: p, owner: -1, ord: ord, early: true})
+			}
+			for p := range procs {
+				if !rr.Chance(2, 3) {
+					continue
+				}
+				var stored []int
+				for _, li := range permOf(rr, len(locals)) {
+					if len(stored) > 0 && rr.Chance(1, 4) {
+						continue
+					}
+					trace = append(trace, storeL(rr, li, p))
+					stored = append(stored, li)
+					for k := rr.Intn(3); k > 0; k-- {
+						other(p)
+					}
+				}
+				if len(stored) > 0 && rr.Chance(1, 2) {
+					other(p)
+				}
+				// give entries up again: in the order stored (3 in 4) or reversed
+				if rr.Chance(1, 4) {
+					for i, j := 0, len(stored)-1; i < j; i, j = i+1, j-1 {
+						stored[i], stored[j] = stored[j], stored[i]
+					}
+				}
+				for _, li := range stored {
+					switch rr.Intn(4) {
+					case 0: // keeps its entry until the process exits
+					case 1:
+						locals[li].Close()
+						trace = append(trace, fmt.Sprintf("local%d.Close()", li))
+					default:
+						locals[li].Delete(procs[p])
+						trace = append(trace, fmt.Sprintf("local%d.Delete(p%d)", li, p))
+					}
+				}
+			}
+		}
 		kidsOf := func(p int) []int {
 			var out []int
 			for c, q := range parent {
@@ -1020,12 +1115,6 @@ func stress(c *lib.Ctx, r *lib.RNG) []lib.OracleFail {
 			return out
 		}
 		// children forked DURING the concurrent phase (Fork racing with Join/Exit, fix 37f33b8)
-		type lateKid struct {
-			parent int
-			proc   *process.Process
-		}
-		var lateMu sync.Mutex
-		var lateKids []lateKid
 		lateKidsOf := func(p int) []*process.Process {
 			lateMu.Lock()
 			defer lateMu.Unlock()
@@ -1060,7 +1149,11 @@ func stress(c *lib.Ctx, r *lib.RNG) []lib.OracleFail {
 			nops := gr.Range(2, 10)
 			ops := make([]op, nops)
 			for i := range ops {
-				ops[i] = op{kind: gr.Weighted([]int{5, 5, 2, 2, 1, 2}), p: gr.Intn(np), e: gr.Intn(len(errs))}
+				w := []int{5, 5, 2, 2, 1, 2, 0, 0}
+				if len(locals) > 0 {
+					w[6], w[7] = 3, 2
+				}
+				ops[i] = op{kind: gr.Weighted(w), p: gr.Intn(np), e: gr.Intn(len(errs))}
 				if ops[i].kind == 1 {
 					ops[i].h = pick(gr, ops[i].p)
 					ops[i].ord = ordc[[2]int{ops[i].p, g}]
@@ -1140,6 +1233,20 @@ func stress(c *lib.Ctx, r *lib.RNG) []lib.OracleFail {
 						lateMu.Lock()
 						lateKids = append(lateKids, lateKid{o.p, k})
 						lateMu.Unlock()
+					case 6:
+						l := locals[o.e%len(locals)]
+						if o.e%2 == 0 {
+							l.Store(procs[o.p], o.e)
+						} else {
+							_, _ = l.LoadOrStore(procs[o.p], func() (int, error) { return o.e, nil })
+						}
+					case 7:
+						l := locals[o.e%len(locals)]
+						if o.e%5 == 0 {
+							l.Close()
+						} else {
+							l.Delete(procs[o.p])
+						}
 					}
 				}
 			}()
@@ -1174,7 +1281,7 @@ func stress(c *lib.Ctx, r *lib.RNG) []lib.OracleFail {
 			wg.Wait()
 			close(fin)
 		}()
-		replay := desc + "\n" + strings.Join(trace, "\n") + fmt.Sprintf("\nthen %d goroutines run their planned Exit/AddExitHook/Join/value operations freely and p0 is exited", ng)
+		replay := desc + "\n" + strings.Join(trace, "\n") + fmt.Sprintf("\nthen %d goroutines run their planned Exit/AddExitHook/Join/Fork/value/Local operations freely and p0 is exited", ng)
 		select {
 		case <-fin:
 		case <-time.After(watchdog):
@@ -1193,7 +1300,7 @@ func stress(c *lib.Ctx, r *lib.RNG) []lib.OracleFail {
 		}
 		for _, k := range lateKids {
 			if k.proc.Status() != process.StatusTerminated || k.proc.Err() == nil {
-				add("cascade-incomplete", fmt.Sprintf("%s: a child forked from p%d during the concurrent phase is still running after the root exited", desc, k.parent), replay)
+				add("cascade-incomplete", fmt.Sprintf("%s: a child forked from p%d after the tree was built (in the Local phase of the set-up or during the concurrent phase) is still running after the root exited", desc, k.parent), replay)
 			}
 		}
 		if len(lateKids) > 0 {
@@ -1253,6 +1360,7 @@ func Run(c *lib.Ctx) {
 	c.Assumptions = []string{
 		"each mu.Lock…mu.Unlock section of Process is one atomic step (sync.RWMutex is correct); sync.Cond.Wait atomically releases p.mu and parks, and returns only after a Broadcast (then re-acquires p.mu)",
 		"user hooks do not call back into the process (harness hooks only log and park)",
+		"process.Local (pkg/process/local.go) is, for this property, one more caller of AddExitHook: the model has no Local; the free-running family lets 1–3 Locals Store / LoadOrStore / Delete / Close values for the processes of a round (in a known order in the set-up phase, freely in the concurrent phase) and judges by the same oracles – whatever a Local does with its own clean-up hook must not make another accepted hook run zero or two times, nor drop a forked child from the cascade",
 		"Join may run concurrently with Fork (fix 37f33b8: children counter + sync.Cond); it waits for the forks whose children++ precedes its last check",
 		"a goroutine parked inside Process.Join (sync.(*Cond).Wait) is recognised by its runtime wait state (runtime.Stack)",
 		"forkAdd/forkReg and the steps between two user hooks cannot be separated on the real code without editing it; the correspondence exercises them coalesced, the theorems cover them separately",
